@@ -1,15 +1,81 @@
-"""C24 -- logarithmic strain handler (PARTIAL: 1D handler, Lagrangian setting only).
-Engine S: LogarithmicStrainHandler<1u> (Hencky strain, T<->S conversions, material tangent moduli) traced from /repo; Coq proves
-Hencky strain = 1/2 ln C, S dE_GL = T dE_log with the derivatives of both strain measures proved by auto_derive, the stress round
-trip, and the tangent conversion = chain-rule formula.  The same statements are evaluated on the real double code (search)."""
-import os
+"""C24 -- logarithmic strain handler is energetically consistent.
+Engine S.  LogarithmicStrainHandler<1u> is traced whole (both settings); <2u> and <3u> are traced in stages with the eigen-data (vp, m)
+of C as symbolic inputs (N / M tensors, Builder, stress conversion, convertTangentModuli = 4 p^T Ks p + geometric part), decision trees
+over the eigenvalue-tie tests.  Coq: 1D all conversions; 2D: N tensors, Hencky strain, p = Daleckii-Krein tensor (distinct / confluent),
+S : dE_GL = T : dE_log, tangent conversion = chain rule with the second divided differences of 1/2 ln (distinct / confluent), any M
+tensors (material and spatial moduli); 3D: N tensors, stress power, 4 p^T Ks p, second-derivative part on the dyads of a basis of
+tensors for the leaves distinct / three equal / two equal (quick), for any M tensors (thorough).
+Execution of the real double code with the real eigen-solver (driver.cxx): Hencky strain vs own 1/2 ln C, power by finite differences,
+tangent by finite differences of the converted stress (rotated F with two or three equal principal stretches, non coaxial T), round
+trips, Eulerian Cauchy stress and spatial moduli vs push-forwards."""
+import os, re
+from concurrent.futures import ThreadPoolExecutor
 from vlib import guarded_main
 
-SUPPORT = ["src/Exception/ContractViolation.cxx", "src/Exception/TFELException.cxx", "src/Material/LogarithmicStrainHandler.cxx"]
+BASE = ["src/Exception/ContractViolation.cxx", "src/Exception/TFELException.cxx", "src/Material/LogarithmicStrainHandler.cxx"]
+TOL = {"hencky": 1e-12, "power": 1e-7, "tangent": 2e-5, "roundtrip": 1e-10, "cauchy": 1e-11, "spatial": 1e-10}
+WHAT = {"hencky": "getHenckyLogarithmicStrain differs from 1/2 ln C",
+        "power": "stress power not preserved: T : dE_log <> S : dE_GL (dE_log by central differences of the Hencky strain)",
+        "tangent": "convertToMaterialTangentModuli differs from the derivative of the converted stress S(E_GL) (central differences; closed form in 1D)",
+        "roundtrip": "convertFrom...(convertTo...(T)) <> T",
+        "cauchy": "Eulerian / Lagrangian convertToCauchyStress differs from F S F^T / J",
+        "spatial": "convertToSpatialTangentModuli differs from the push-forward of the material moduli"}
+
+
+def planned_obligations(c, chains):
+    """number of theorems stated in the Properties files of the planned chains (a chain that stops early must still count)"""
+    n = 0
+    for ch in chains:
+        for f in ch:
+            if os.path.basename(f).startswith("Properties"):
+                n += len(re.findall(r"^\s*(?:Theorem|Lemma|Corollary)\s", open(os.path.join(c.dir, "coq", f)).read(), flags=re.M))
+    return n
+
+
+def judge(c, out):
+    finding = False
+    seen = set()
+    n = 0
+    for l in out.splitlines():
+        if not l.startswith("CASE"):
+            continue
+        p = [x.split() for x in l.split("|")]
+        N, kind = int(p[0][1]), p[0][2]
+        F = [float(x) for x in p[1]]
+        T = [float(x) for x in p[2]]
+        d = [float(x) for x in p[3]]
+        dev = dict(zip(("hencky", "power", "tangent", "roundtrip", "cauchy", "spatial"), d[:6]))
+        tstar = d[6]
+        n += 1
+        c.count(1, (N, kind, tuple(F)), kind != "generic")
+        if n % 9 == 1:
+            c.sample({"dimension": N, "kind": kind, "F (row major)": F, "T": T, "relative deviations": dev})
+        for name, v in dev.items():
+            if v != v or v > TOL[name]:
+                ident = "%s:N%d:%s" % (name, N, kind)
+                replay = {"dimension": N, "kind": kind, "F_row_major": F, "T": T, "deviations": dev, "how": "props/C24/driver.cxx <seed> <n>"}
+                if name == "tangent" and N == 3 and tstar == tstar and tstar <= TOL[name]:
+                    # the deviation disappears when the coefficient eta of the two-equal-eigenvalue branch is corrected: the known finding
+                    finding = True
+                    key = "eta-two-equal-eigenvalues:N3:" + kind
+                    if key in seen:
+                        continue
+                    seen.add(key)
+                    c.report(key, "LogarithmicStrainHandler<3u>::convertTangentModuli, two equal eigenvalues: coefficient eta taken with the single "
+                             "eigenvalue repeated; converted tangent deviates from the finite differences of the converted stress by %.3g (relative), "
+                             "by %.3g once eta is corrected; F (row major) = %s, T = %s" % (v, tstar, F, T), replay, True)
+                else:
+                    key = ident + ":" + ",".join("%.5g" % x for x in F)
+                    c.report(key, "%s: relative deviation %.3g (tolerance %.1g); N=%d, %s, F (row major) = %s, T = %s" % (WHAT[name], v, TOL[name], N, kind, F, T),
+                             replay, True)
+    return n, finding
 
 
 def main(c):
-    exe = c.cxx("trace", ["trace.cxx"], SUPPORT)
+    with ThreadPoolExecutor(max_workers=2) as ex:
+        f1 = ex.submit(c.cxx, "trace", ["trace.cxx"], BASE)
+        f2 = ex.submit(c.cxx, "driver", ["driver.cxx"], BASE + ["src/Math/LUException.cxx", "src/Math/MathException.cxx"])
+        exe, drv = f1.result(), f2.result()
     gen = os.path.join(c.work, "coq", "C24_gen.v")
     os.makedirs(os.path.dirname(gen), exist_ok=True)
     rc, out, err = c.run([exe, "gen", gen, str(c.seed)])
@@ -22,19 +88,55 @@ def main(c):
             nag += 1
             c.count(1, ("agree", l))
             if l.startswith("AGREE-FAIL"):
-                c.report("agree:" + l.split()[3], "traced expression and double instantiation disagree: " + l, {"line": l, "seed": c.seed}, True)
-        elif l.startswith("SPEC"):
-            c.count(1, ("spec", l))
-            if nag % 17 == 1:
-                c.sample({"case": l})
-            if l.startswith("SPEC-FAIL"):
-                c.report("spec1d:" + " ".join(l.split()[3:]), "LogarithmicStrainHandler<1u> violates Hencky strain / power conjugacy / tangent chain rule on " + l,
-                         {"line": l, "how": "props/C24/trace.cxx gen (SPEC lines)"}, True)
-    c.trusted("engine S tracer (cxx/sym/sym.hxx printer), g++ template instantiation with Sym; std::log traced as ln",
-              "agreement Sym expression vs double on %d seeded cases" % nag)
-    res = c.coq([gen, "C24Spec.v", "C24Proofs.v", "Properties_C24.v"], timeout=600)
-    c.coverage["rule"] = "Coq: all F_i > 0, all T, Ks (1D handler, Lagrangian setting); execution: 50 seeded cases of the same statements on the double code"
+                c.report("agree:" + "-".join(l.split()[1:4]), "traced definition and double instantiation (or public entry point) disagree: " + l[:400],
+                         {"line": l, "seed": c.seed}, True)
+    c.trusted("engine S tracer (cxx/sym/sym.hxx printer and path oracle), g++ template instantiation with Sym; std::log, std::log1p(x) traced as ln, ln(1+x)",
+              "2D/3D: the eigen-solver of stensor (Jacobi iterations) is replaced for the symbolic scalar by injected eigenvalues / eigenvectors "
+              "(full specialisation of StensorEigenSolver<FSESJACOBIEIGENSOLVER,N,Sym> in props/C24/trace.cxx); private members reached with "
+              "`#define private public`; handlers with given members built through the Builder and the private constructor",
+              "agreement on %d seeded cases: each traced stage vs its double instantiation, and the composed stages (real eigen-data) vs the "
+              "public entry points convertToMaterialTangentModuli / convertToSpatialTangentModuli, degenerate eigenvalues included" % nag,
+              "that the Daleckii-Krein forms are the Frechet derivatives of 1/2 ln (mathematics, not proved here; checked by finite differences)")
+    rc, out, err = c.run([drv, str(c.seed), str(c.pick(25, 400))], 1200)
+    ncase, finding = 0, False
+    if rc != 0:
+        c.report("driver", "driver failed: " + err[-500:], {"stderr": err[-3000:]}, False)
+    else:
+        ncase, finding = judge(c, out)
+    base = c.coq([gen, "C24Spec.v", "C24Tac.v"], timeout=900)
+    results = [base]
+    planned = []
+    pair = ["C24Pair3_refuted.v", "Properties_C24_pair_refuted.v"] if finding else ["C24Pair3.v", "Properties_C24_pair.v"]
+    if base.ok:
+        chains = [["C24Proofs.v", "Properties_C24.v", "C24Proofs2D.v", "Properties_C24_2D.v"], ["C24Proofs3D.v", "Properties_C24_3D.v"], ["C24Proofs3Dd.v", "Properties_C24_3Dd.v"], pair]
+        planned += chains
+        with ThreadPoolExecutor(max_workers=4) as ex:
+            results += [f.result() for f in [ex.submit(c.coq, ch, 1800) for ch in chains]]
+        if not c.quick() and all(r.ok for r in results):
+            chains = [["C24Split2.v"], ["C24G3.v"]] + ([] if finding else [["C24G3pair.v", "Properties_C24_thorough_pair.v"]])
+            planned += chains + [["Properties_C24_thorough.v"]]
+            with ThreadPoolExecutor(max_workers=3) as ex:
+                results += [f.result() for f in [ex.submit(c.coq, ch, 3000) for ch in chains]]
+            if all(r.ok for r in results):
+                results.append(c.coq(["Properties_C24_thorough.v"], timeout=900))
+    if finding:
+        c.notes.append("known finding observed on the real code: the theorem on the two-equal-eigenvalue leaves is checked in its refuted form "
+                       "(Properties_C24_pair_refuted.v); the positive statements (Properties_C24_pair.v, thorough: C24G3pair.v) are used once the fix "
+                       "props/C24/fix_eta_two_equal_eigenvalues.diff is applied")
+    if c.quick():
+        c.notes.append("quick tier: the second-derivative part of the 3D tangent conversion is proved on the dyads of a basis of tensors (all coefficients); "
+                       "for arbitrary M tensors (general eigenvectors, spatial moduli) and the 2D split lemma: thorough tier")
+    c.coverage["rule"] = ("Coq: all positive eigenvalues, all eigenvectors / M tensors, dual stresses and tangent operators on the stated leaves; execution: "
+                          "%d deformation gradients (generic, two equal, three equal principal stretches, rotated; 2D and 3D) with finite differences" % ncase)
     c.coverage["traces_validated_against_impl"] = nag
+    c.coverage["obligations"] = planned_obligations(c, planned)
+    c.coverage["discharged"] = sum(len(r.discharged) for r in results)
+
+    class Res:
+        pass
+    res = Res()
+    res.ok = all(r.ok for r in results)
+    res.failed = [f for r in results for f in r.failed]
     if not res.ok:
         if any(v[3] for v in c.violations):
             c.notes.append("proof obligations failed: %s; concrete failing inputs reported above" % [f[2] for f in res.failed])
